@@ -4,8 +4,10 @@ import (
 	"encoding/json"
 	"fmt"
 	"os"
+	"os/exec"
 	"regexp"
 	"sort"
+	"strconv"
 	"strings"
 	"sync"
 	"time"
@@ -58,6 +60,9 @@ type C17Plan struct {
 	// TwinFirst: also take the reference results BEFORE the concurrent phase (warms lazily filled
 	// state, so only some runs do it) and demand that they agree with those taken after it
 	TwinFirst bool `json:"twin_first,omitempty"`
+	// FreshTwin: additionally compute the reference results in a brand-new process (nothing any
+	// earlier operation of this process left behind can reach it) and compare
+	FreshTwin bool `json:"fresh_twin,omitempty"`
 	// SharedMapper: all tasks use ONE schema service (as a server's meta client is shared), which
 	// answers from maps it keeps; its schema is SharedSchema
 	SharedMapper bool       `json:"shared_mapper,omitempty"`
@@ -78,7 +83,7 @@ func (C17) Meta() core.Meta {
 		},
 		Real:       []string{"influxql (instrumented copy of the working tree, built with -race)", "ThreadSanitizer runtime as the data-race judge", "regexp, strings.Replacer, fmt, time zone cache (race-instrumented std, atomic from the scheduler's point of view)"},
 		Stub:       []string{"Go scheduler / goroutine interleaving (plan-driven baton over real goroutines)", "Go map iteration order", "meta store and valuers (per-task stubs; callbacks are yield points)"},
-		ProbeNames: []string{"twin-before-and-after", "shared-mapper", "switch-inside-op", "switch-in-callback", "shared-op", "independent-op", "all-parse", "all-shared", "hot-op", "tasks>=4", "preempt>=4", "twin-compared"},
+		ProbeNames: []string{"fresh-twin-compared", "twin-before-and-after", "shared-mapper", "switch-inside-op", "switch-in-callback", "shared-op", "independent-op", "all-parse", "all-shared", "hot-op", "tasks>=4", "preempt>=4", "twin-compared"},
 		FaultNames: []string{"preemption", "mapper-error"},
 	}
 }
@@ -90,7 +95,7 @@ func (C17) Runs(tier string) uint64 {
 	return 50000
 }
 
-var sharedOps = []string{"String", "Clone", "CloneExpr", "WalkFunc", "WalkNil", "Eval", "EvalBool", "EvalFields", "Reduce", "ReduceExpr", "RewriteFields", "ConditionExpr", "EvalType", "TypeValuerEval", "FieldDimensions", "ColumnNames", "FieldExprByName", "Names", "AliasNames", "Measurements", "RequiredPrivileges", "HasWildcard", "ExprNames", "HasTimeExpr", "TimeAscending", "ContainsVarRef", "IsSelector", "BinaryExprName", "Normalize", "TimeRangeMethods", "PartitionExpr", "ConjunctionsRoundTrip", "SortFields", "ListStrings"}
+var sharedOps = []string{"ConditionExpr", "TimeRangeMethods", "Reduce", "String", "Clone", "CloneExpr", "WalkFunc", "WalkNil", "Eval", "EvalBool", "EvalFields", "Reduce", "ReduceExpr", "RewriteFields", "ConditionExpr", "EvalType", "TypeValuerEval", "FieldDimensions", "ColumnNames", "FieldExprByName", "Names", "AliasNames", "Measurements", "RequiredPrivileges", "HasWildcard", "ExprNames", "HasTimeExpr", "TimeAscending", "ContainsVarRef", "IsSelector", "BinaryExprName", "Normalize", "TimeRangeMethods", "PartitionExpr", "ConjunctionsRoundTrip", "SortFields", "ListStrings"}
 var indepKinds = []string{"parse-query", "parse-stmt", "parse-expr", "print-own", "quote-string", "quote-ident", "needs-quotes", "format-duration", "parse-duration", "sanitize", "lookup", "language-clone", "own-settimerange", "own-rewrite", "parse-stream", "shared-stmt"}
 
 func genTaskOp(r *core.Rand, o gen.Opts, nShared int, pool int, hot *TaskOp) TaskOp {
@@ -184,6 +189,7 @@ func (C17) NewPlan(r *core.Rand, tier string, i uint64) interface{} {
 		p.EndPick = append(p.EndPick, r.Intn(8))
 	}
 	p.TwinFirst = r.Chance(1, 3)
+	p.FreshTwin = r.Chance(1, freshTwinDen)
 	if r.Chance(1, 4) {
 		p.SharedMapper = true
 		p.SharedSchema = gen.GenSchema(r)
@@ -661,6 +667,29 @@ func (C17) Exec(pi interface{}) *core.RunResult {
 			}
 		}
 	}
+	// oracle 2b: "made alone" taken literally — the same calls in a fresh process
+	if p.FreshTwin && len(res.Violations) == 0 {
+		if ft, err := freshTwin(p); err != nil {
+			res.Probe("fresh-twin-unavailable")
+		} else {
+			res.Probe("fresh-twin-compared")
+			for t := 0; t < n && t < len(ft); t++ {
+				for k := range twin[t] {
+					if k >= len(ft[t]) {
+						break
+					}
+					a, b := ft[t][k], twin[t][k]
+					if a.Panicked != (b.pan != nil) || (!a.Panicked && a.Out != b.out) {
+						name := p.Tasks[t].Ops[k].Kind
+						if name == "shared" {
+							name = "shared:" + p.Tasks[t].Ops[k].Op.Name
+						}
+						res.Violate("differs-from-fresh-process:"+name, fmt.Sprintf("task %d op %d (%s): the call made alone in this process (after its earlier operations) gives a different result than the same call in a fresh process\n  fresh process: %s\n  this process:  %s\n%s", t, k, name, clip(a.Out), clip(b.out), plan()))
+					}
+				}
+			}
+		}
+	}
 	// measures
 	inside := false
 	var sw strings.Builder
@@ -727,6 +756,69 @@ func (C17) Exec(pi interface{}) *core.RunResult {
 		}
 	}
 	return res
+}
+
+// freshTwinDen: one run in freshTwinDen also computes its reference results in a fresh process
+// (VERIF_FRESH_TWIN_DEN overrides it; the thorough tier is long enough for the default).
+var freshTwinDen = func() int {
+	if v, err := strconv.Atoi(os.Getenv("VERIF_FRESH_TWIN_DEN")); err == nil && v > 0 {
+		return v
+	}
+	return 60
+}()
+
+// FreshOut is one reference result computed by `vsimeng twin` in a fresh process.
+type FreshOut struct {
+	Out      string `json:"out"`
+	Panicked bool   `json:"panicked"`
+}
+
+// TwinOnly executes just the sequential reference phase of a plan (used by `vsimeng twin`).
+func TwinOnly(p *C17Plan) [][]FreshOut {
+	verifhook.SetOrder(p.Order)
+	defer verifhook.SetOrder(verifhook.OrderPolicy{})
+	out := make([][]FreshOut, len(p.Tasks))
+	for t := range p.Tasks {
+		ctx := newOpCtx(&p.Tasks[t].Env)
+		if p.SharedMapper {
+			ctx.fm = simschema.NewFrozenMapper(p.SharedSchema, true)
+		}
+		for k := range p.Tasks[t].Ops {
+			sh := parseShared(p.Shared)
+			op := &p.Tasks[t].Ops[k]
+			var o string
+			verifhook.BeginOp(opBudget)
+			pan := core.Guard(func() { o = runTaskOp(op, ctx, sh, parseSharedQuery(p.SharedStmt)) })
+			verifhook.EndOp()
+			out[t] = append(out[t], FreshOut{Out: o, Panicked: pan != nil})
+		}
+	}
+	return out
+}
+
+func freshTwin(p *C17Plan) ([][]FreshOut, error) {
+	self, err := os.Executable()
+	if err != nil {
+		return nil, err
+	}
+	f, err := os.CreateTemp("", "verif-twin-*.json")
+	if err != nil {
+		return nil, err
+	}
+	defer os.Remove(f.Name())
+	f.Write(core.PlanJSON(p))
+	f.Close()
+	cmd := exec.Command(self, "twin", f.Name())
+	cmd.Env = append(os.Environ(), "GOMAXPROCS=1")
+	b, err := cmd.Output()
+	if err != nil {
+		return nil, err
+	}
+	var out [][]FreshOut
+	if err := json.Unmarshal(b, &out); err != nil {
+		return nil, err
+	}
+	return out, nil
 }
 
 func clipRace(s string) string {
